@@ -325,5 +325,5 @@ static void one_case(vh::Ctx & c, uint64_t idx)
 
 int main(int argc, char ** argv)
 {
-  return vh::run(argc, argv, "C05", {3200, 400000}, one_case);
+  return vh::run(argc, argv, "C05", {12000, 400000}, one_case);
 }
